@@ -48,6 +48,12 @@ PROGRAMS = [
     ("{'x': k, 'y': [k]}.y[0] + {'x': k}.x + (k in [1, 2, 3] ? 100 : 200)", "k", [1, 2, 3, 5]),
     ("string(k) + '/' + string(double(k)) + '/' + string(uint(k)) + '/' + string(type(k) == int)", "k", [1, 2, 3]),
     ("bytes(k).size() * 10 + size(k + k)", "k", ["\u00e9", "ab", "", "\U0001f431"]),
+    # literals with escapes (decoded when the program is built and, by the interpreter, at every evaluation)
+    ("size(b'\\x01\\x02\\x03abc\\n' + bytes(string(k))) * 10 + size(b'\\141\\142\\143') + (b'\\x01\\x02' == b'\\001\\002' ? 1 : 0)", "k", [1, 22, 333]),
+    ("(b'\\xff\\xfe\\xfd' + b'\\t\\r\\n').size() * 100 + size('\\u00e9\\U0001f431\\x41\\101\\n') + k", "k", [1, 2, 3]),
+    # nesting at CEL's minimum limits (24 parentheses deep: more than 1000 Python frames under the interpreter)
+    ("(" * 24 + "k" + " + 1)" * 24, "k", [1, 2, 3]),
+    ("size([" * 12 + "k" + "])" * 12 + " + k", "k", [1, 2, 3]),
     # evaluations that FAIL, each thread with its own key / name / index in the message
     ("{'washer': 1, 'rivet': 2}[k] + {'a': 1}[k]", "k", ["washer", "rivet", "bolt", "nut"]),
     ("[1, 2, 3][k] + 10 / (k - 2)", "k", [0, 1, 2, 5]),
